@@ -130,6 +130,13 @@ func registryVerdict(reg string) int {
 	if reg == "" || strings.ContainsRune(reg, '@') {
 		return 0
 	}
+	// '?' ends a URL authority (the rest would be a query), space, control characters and DEL
+	// are refused by net/url: never a valid registry
+	for i := 0; i < len(reg); i++ {
+		if c := reg[i]; c == '?' || c <= ' ' || c == 0x7f {
+			return 0
+		}
+	}
 	safe := func(s string) bool {
 		for i := 0; i < len(s); i++ {
 			c := s[i]
@@ -250,7 +257,13 @@ func parseCase(s string) {
 		run.OracleFail(id, "roundtrip", fmt.Sprintf("ParseReference(%q)=%+v; String()=%q re-parses to %+v, %v", s, ref, ref.String(), back, err2),
 			map[string]string{"op": "P", "input": s})
 	}
-	// oracle 3: URL slot, as net/url sees it
+	// oracle 3: URL slot, as net/url sees it (for registries net/url alone adjudicates only the
+	// query/fragment/segment-count part is judged, in checkURLLoose)
+	if ref.Reference != "" && registryVerdict(ref.Registry) != 1 {
+		for _, kind := range []string{"manifest", "blob", "referrers"} {
+			checkURLLoose(id, kind, ref)
+		}
+	}
 	if ref.Reference != "" && registryVerdict(ref.Registry) == 1 {
 		for _, kind := range []string{"manifest", "blob", "referrers"} {
 			for _, plain := range []bool{false, true} {
@@ -286,6 +299,23 @@ func checkURL(id, kind string, plain bool, ref registry.Reference) {
 	got := strings.Split(pu.EscapedPath(), "/")
 	if strings.Join(got, "\x00") != strings.Join(want, "\x00") || pu.Path != pu.EscapedPath() {
 		bad(fmt.Sprintf("path segments %q, want %q", got, want))
+	}
+}
+
+// checkURLLoose: whatever the registry looks like, the built URL must not carry a query or a
+// fragment and its path must have exactly the /v2/<repository>/<kind>/<reference> segments.
+func checkURLLoose(id, kind string, ref registry.Reference) {
+	u := remote.VerifURL(kind, false, ref)
+	seg := map[string]string{"manifest": "manifests", "blob": "blobs", "referrers": "referrers"}[kind]
+	pu, err := url.Parse(u)
+	if err != nil {
+		return // net/url itself refuses the authority: nothing can be sent
+	}
+	want := append(append([]string{"", "v2"}, strings.Split(ref.Repository, "/")...), seg, ref.Reference)
+	got := strings.Split(pu.EscapedPath(), "/")
+	if pu.RawQuery != "" || pu.ForceQuery || pu.Fragment != "" || strings.Join(got, "\x00") != strings.Join(want, "\x00") {
+		run.OracleFail(id, "url-slot", fmt.Sprintf("%s URL %q of %+v: query %q fragment %q path segments %q, want %q and no query", kind, u, ref, pu.RawQuery, pu.Fragment, got, want),
+			map[string]any{"op": "U", "kind": kind, "plain": false, "registry": ref.Registry, "repository": ref.Repository, "reference": ref.Reference})
 	}
 }
 
@@ -341,7 +371,13 @@ func formsAgree(base registry.Reference, tag, dg string) {
 		}
 	}
 	// other registry / repository / empty are rejected
-	for _, in := range []string{"", "other.io/" + base.Repository + ":" + tag, base.Registry + "/other/" + base.Repository + ":" + tag, b} {
+	// docker.io is sent to registry-1.docker.io, but the two names are different registries
+	alias := map[string]string{"docker.io": "registry-1.docker.io", "registry-1.docker.io": "docker.io"}[base.Registry]
+	foreign := []string{"", "other.io/" + base.Repository + ":" + tag, base.Registry + "/other/" + base.Repository + ":" + tag, b}
+	if alias != "" {
+		foreign = append(foreign, alias+"/"+base.Repository+":"+tag, alias+"/"+base.Repository+"@"+dg, alias+"/"+base.Repository)
+	}
+	for _, in := range foreign {
 		repoCase(base, in)
 		if ref, err := repo.ParseReference(in); err == nil {
 			run.OracleFail(run.NewID(), "repo-foreign", fmt.Sprintf("Repository(%v).ParseReference(%q) accepted as %+v", base, in, ref),
@@ -381,7 +417,8 @@ func randomValid(r *common.Rand) string {
 		}
 		return sb.String()
 	}
-	reg := common.Pick(r, []string{"localhost", "localhost:5000", "docker.io", "registry.example.com", "127.0.0.1:443", "a-b.c_d", "reg:"})
+	reg := common.Pick(r, []string{"localhost", "localhost:5000", "docker.io", "registry.example.com", "127.0.0.1:443", "a-b.c_d", "reg:",
+		"registry-1.docker.io", "host?x=y", "host?", "h:5000?q", "host#frag", "[::1]:5000", "ho st"})
 	nc := 1 + r.Intn(3)
 	parts := make([]string, nc)
 	for i := range parts {
@@ -481,6 +518,7 @@ func main() {
 		{Registry: "localhost:5000", Repository: "hello/world"},
 		{Registry: "docker.io", Repository: "library/x"},
 		{Registry: "a", Repository: "a"},
+		{Registry: "registry-1.docker.io", Repository: "library/x"},
 	}
 	for _, base := range bases {
 		for _, tag := range []string{"v1", "latest", "A.b-c_d", strings.Repeat("x", 128)} {
